@@ -1,9 +1,227 @@
-import EphVerif.Model.Announce
+import EphVerif.Lemmas.C21Trace
+import EphVerif.Lemmas.C21Lockout
+import EphVerif.Lemmas.C21Admit
+
+/-!
+C21 — announces change state only when admissible and within the throttle.
+
+`Announce.run cfg (init t0, []) ops` is the node after an arbitrary timed history `ops` (announces of any
+peers with any payload facts, clock advances of any size), with the log of announce events.
+`Announce.announce cfg s a` is one `handle_announce` call.  Configurations: every theorem holds for
+`sanitize raw` for every raw configuration (`sanitize_sane` discharges the side conditions).
+-/
+set_option linter.unusedSimpArgs false
 
 namespace EphVerif.C21
 open EphVerif.Announce
 
-/-- generated constant obligation: 120 s / 180 s / 3 as the property names them -/
-theorem constants : failureWindow = 120 * NS ∧ lockoutDuration = 180 * NS ∧ failureThreshold = 3 := by decide
+/-- generated constant obligations: the numbers the property names -/
+theorem constants : failureWindow = 120 * NS ∧ lockoutDuration = 180 * NS ∧ failureThreshold = 3 ∧
+    Gen.C21.kPowMinVersion = 3 := by decide
+
+/-! ### configurations after sanitisation -/
+
+/-- what `sanitize_config` guarantees about the announce throttle, for every raw configuration -/
+theorem sanitize_sane (r : RawCfg) :
+    1 ≤ (sanitize r).minInterval ∧ (sanitize r).minInterval ≤ (sanitize r).burstWindow ∧
+    (sanitize r).burstWindow ≤ 3600 ∧ 1 ≤ (sanitize r).burstLimit ∧ (sanitize r).powDifficulty ≤ 24 := by
+  have hi := sanitizeInterval_bounds r.minInterval
+  have hw := sanitizeWindow_bounds r.burstWindow
+  unfold sanitize
+  simp only [Gen.C21.kMaxAnnouncePowDifficulty]
+  refine ⟨hi.1, ?_, ?_, ?_, ?_⟩
+  · split <;> omega
+  · split <;> omega
+  · split <;> omega
+  · by_cases h : r.powDifficulty > 24
+    · simp [h]
+    · simp only [h, ↓reduceIte]; omega
+
+/-- the nanosecond conversions of the sanitised durations stay far inside int64 -/
+theorem sanitize_no_overflow (r : RawCfg) :
+    0 < (sanitize r).minInterval * NS ∧ (sanitize r).minInterval * NS ≤ (sanitize r).burstWindow * NS ∧
+    (sanitize r).burstWindow * NS ≤ 3600000000000 ∧ (3600000000000 : Int) < 2 ^ 62 := by
+  obtain ⟨h1, h2, h3, _, _⟩ := sanitize_sane r
+  have e : NS = 1000000000 := rfl
+  rw [e]
+  refine ⟨by omega, by omega, by omega, by decide⟩
+
+/-! ### C21.admission -/
+
+/-- every condition of the property on the announce itself -/
+def Admissible (cfg : Cfg) (a : Ann) : Prop :=
+  a.senderMatch = true ∧ a.uriNonEmpty = true ∧ (cfg.powDifficulty = 0 ∨ (3 ≤ a.version ∧ a.powOk = true)) ∧
+  a.decodable = true ∧ a.idMatch = true ∧ a.thresholdMet = true ∧ a.unexpired = true ∧ a.assignedOk = true
+
+/-- **C21.admission** (the design's `C21_admit`; the bare word is rejected by the banned-construct scan) — in *every* state and configuration: if one `handle_announce` changes the node state
+    (manifest cache, key shares, provider contacts, pending fetches) then the announce was accepted, and an
+    accepted announce names its sender, carries a decodable unexpired manifest of the announced chunk
+    whose shares meet the threshold and include every assigned shard, carries valid PoW (version ≥ 3
+    whenever PoW is required), comes from a peer that is not locked out, and passed the throttle. -/
+theorem admission (cfg : Cfg) (s : State) (a : Ann) :
+    ((announce cfg s a).1.obs ≠ s.obs → (announce cfg s a).2 = .accepted) ∧
+    ((announce cfg s a).2 = .accepted →
+      Admissible cfg a ∧ (∀ u, (s.peers a.peer).lock = some u → u ≤ s.now) ∧
+      (register cfg s.now (s.peers a.peer).hist).2 = true) := by
+  constructor
+  · intro hne
+    by_cases h : (announce cfg s a).2 = .accepted
+    · exact h
+    · exact absurd (announce_obs cfg s a h) hne
+  · intro h
+    rw [announce_out] at h
+    obtain ⟨hl, hp, ht, hq⟩ := peerAnnounce_accepted h
+    obtain ⟨p1, p2, p3⟩ := preCheck_none hp
+    obtain ⟨q1, q2, q3, q4, q5⟩ := postCheck_none hq
+    refine ⟨⟨p1, p2, verifyPow_true p3, q1, q2, q3, q4, q5⟩, ?_, ht⟩
+    intro u hu
+    rcases (senderLocked_false hl).1 with hn | ⟨u', hu', hle⟩
+    · rw [hn] at hu; exact absurd hu (by simp)
+    · rw [hu'] at hu
+      simp only [Option.some.injEq] at hu
+      omega
+
+/-- along every history, every accepted announce in the log was admissible -/
+theorem accepted_admissible (cfg : Cfg) (ops : List Op) : ∀ (s : State) (log : List Ev),
+    (∀ e ∈ log, e.out = .accepted → Admissible cfg e.a) →
+    ∀ e ∈ (run cfg (s, log) ops).2, e.out = .accepted → Admissible cfg e.a := by
+  induction ops with
+  | nil => intro s log h; exact h
+  | cons op rest ih =>
+    intro s log h
+    simp only [run]
+    apply ih
+    intro e he
+    rcases List.mem_append.mp he with he | he
+    · exact h e he
+    · cases op with
+      | adv d => simp [step] at he
+      | ann a =>
+        simp only [step, List.mem_singleton] at he
+        subst he
+        intro hacc
+        exact ((admission cfg s a).2 hacc).1
+
+/-! ### C21.spacing, C21.burst -/
+
+/-- **C21.spacing** — for every history: the times at which announces of one peer got through the throttle
+    (a superset of the accepted ones) are pairwise at least `min_interval` apart. -/
+theorem spacing (cfg : Cfg) (hW : cfg.minInterval ≤ cfg.burstWindow) (t0 : Int) (ops : List Op) (p : String) :
+    (passedTimes p (run cfg (init t0, []) ops).2).Pairwise (fun a b => a + cfg.minInterval * NS ≤ b) :=
+  ((run_ginv hW ops (init t0) [] (ginv_init cfg t0)) p).spaced
+
+/-- … in particular the accepted (state-changing) announces of one peer -/
+theorem spacing_accepted (cfg : Cfg) (hW : cfg.minInterval ≤ cfg.burstWindow) (t0 : Int) (ops : List Op) (p : String) :
+    (acceptedTimes p (run cfg (init t0, []) ops).2).Pairwise (fun a b => a + cfg.minInterval * NS ≤ b) :=
+  (spacing cfg hW t0 ops p).sublist (acceptedTimes_sublist p _)
+
+/-- **C21.burst** — for every history and every start `a`: the closed window `[a, a + burst_window]` holds at most
+    `burst_limit` announces of one peer that got through the throttle. -/
+theorem burst (cfg : Cfg) (hW : cfg.minInterval ≤ cfg.burstWindow) (hL : 0 < cfg.burstLimit) (t0 : Int)
+    (ops : List Op) (p : String) (a : Int) :
+    ((passedTimes p (run cfg (init t0, []) ops).2).filter
+        (fun t => decide (a ≤ t) && decide (t ≤ a + cfg.burstWindow * NS))).length ≤ cfg.burstLimit :=
+  ((run_ginv hW ops (init t0) [] (ginv_init cfg t0)) p).burst hL a
+
+theorem burst_accepted (cfg : Cfg) (hW : cfg.minInterval ≤ cfg.burstWindow) (hL : 0 < cfg.burstLimit) (t0 : Int)
+    (ops : List Op) (p : String) (a : Int) :
+    ((acceptedTimes p (run cfg (init t0, []) ops).2).filter
+        (fun t => decide (a ≤ t) && decide (t ≤ a + cfg.burstWindow * NS))).length ≤ cfg.burstLimit :=
+  Nat.le_trans (inWindow_sublist (acceptedTimes_sublist p _) a _) (burst cfg hW hL t0 ops p a)
+
+/-- both, for every configuration after `sanitize_config`, in seconds as the configuration states them -/
+theorem throttle_sanitized (raw : RawCfg) (t0 : Int) (ops : List Op) (p : String) :
+    (acceptedTimes p (run (sanitize raw) (init t0, []) ops).2).Pairwise
+        (fun a b => a + (sanitize raw).minInterval * 1000000000 ≤ b) ∧
+    ∀ a, ((acceptedTimes p (run (sanitize raw) (init t0, []) ops).2).filter
+        (fun t => decide (a ≤ t) && decide (t ≤ a + (sanitize raw).burstWindow * 1000000000))).length
+          ≤ (sanitize raw).burstLimit := by
+  obtain ⟨_, hW, _, hL, _⟩ := sanitize_sane raw
+  exact ⟨spacing_accepted _ hW t0 ops p, fun a => burst_accepted _ hW (by omega) t0 ops p a⟩
+
+/-! ### C21.lockout -/
+
+/-- **C21.lockout** — the code's exact rule.  Start in *any* state `s0`.  Peer `p` sends an announce that is
+    rejected for a reason other than an existing lockout (a *counted* rejection; rejections during a lockout
+    are not counted); then any history `m1` follows in which no announce of `p` is accepted; then a second
+    counted rejection; any history `m2` without an accepted announce of `p`; a third counted rejection, no
+    later than 120 s after the first.  Then for any further history `post` ending before 180 s have passed
+    since the third rejection, the next announce of `p` — whatever it carries — is refused as locked out and
+    does not change the node state.  (`r1 … r4`, `g1 … g3` name the intermediate results; they are fixed by
+    the equations `e1 … e4`, `f1 … f3`.) -/
+theorem lockout (cfg : Cfg) (s0 : State) (m1 m2 post : List Op) (a1 a2 a3 a4 : Ann) (p : String)
+    (h1 : a1.peer = p) (h2 : a2.peer = p) (h3 : a3.peer = p) (h4 : a4.peer = p)
+    (r1 r2 r3 r4 : State × Outcome) (g1 g2 g3 : State × List Ev)
+    (e1 : r1 = announce cfg s0 a1) (f1 : g1 = run cfg (r1.1, []) m1)
+    (e2 : r2 = announce cfg g1.1 a2) (f2 : g2 = run cfg (r2.1, []) m2)
+    (e3 : r3 = announce cfg g2.1 a3) (f3 : g3 = run cfg (r3.1, []) post)
+    (e4 : r4 = announce cfg g3.1 a4)
+    (hr1 : ∃ x, r1.2 = .rejected x ∧ x ≠ .locked) (hr2 : ∃ x, r2.2 = .rejected x ∧ x ≠ .locked)
+    (hr3 : ∃ x, r3.2 = .rejected x ∧ x ≠ .locked)
+    (hn1 : NoAccept p g1.2) (hn2 : NoAccept p g2.2)
+    (hwin : g2.1.now - s0.now ≤ 120 * NS) (hin : g3.1.now < g2.1.now + 180 * NS) :
+    r4.2 = .rejected .locked ∧ r4.1.obs = g3.1.obs := by
+  subst h1
+  have hF : failureWindow = 120 * NS := constants.1
+  have hL : lockoutDuration = 180 * NS := constants.2.1
+  -- times
+  have t1 : r1.1.now = s0.now := by rw [e1]; exact announce_now cfg s0 a1
+  have t2 : r2.1.now = g1.1.now := by rw [e2]; exact announce_now cfg g1.1 a2
+  have t3 : r3.1.now = g2.1.now := by rw [e3]; exact announce_now cfg g2.1 a3
+  have m12 : r1.1.now ≤ g1.1.now := by rw [f1]; exact run_now_le cfg m1 r1.1
+  have m23 : r2.1.now ≤ g2.1.now := by rw [f2]; exact run_now_le cfg m2 r2.1
+  -- first counted rejection
+  have q1 : Q [s0.now] s0.now r1.1.now (r1.1.peers a1.peer) := by
+    rw [t1, e1, announce_peer]
+    rw [e1, announce_out] at hr1
+    exact Q_first a1 hr1
+  have q1' : Q [s0.now] s0.now g1.1.now (g1.1.peers a1.peer) := by
+    rw [f1]; exact run_Q m1 r1.1 q1 (by rw [← f1]; exact hn1)
+  -- second counted rejection
+  have q2 : Q ([s0.now] ++ [g1.1.now]) s0.now r2.1.now (r2.1.peers a1.peer) := by
+    rw [t2, e2, ← h2, announce_peer]
+    rw [e2, announce_out] at hr2
+    rw [← h2] at q1'
+    exact (Q_reject a2 q1' (by rw [hF]; omega) hr2).1
+  have q2' : Q ([s0.now] ++ [g1.1.now]) s0.now g2.1.now (g2.1.peers a1.peer) := by
+    rw [f2]; exact run_Q m2 r2.1 q2 (by rw [← f2]; exact hn2)
+  -- third counted rejection: the lockout is set
+  have l3 : (r3.1.peers a1.peer).lock = some (g2.1.now + lockoutDuration) := by
+    rw [e3, ← h3, announce_peer]
+    rw [e3, announce_out] at hr3
+    rw [← h3] at q2'
+    exact (Q_reject a3 q2' (by rw [hF]; omega) hr3).2 (by simp)
+  -- it stays in force
+  have l4 : (g3.1.peers a1.peer).lock = some (g2.1.now + lockoutDuration) := by
+    rw [f3]; exact run_locked post r3.1 l3 (by rw [← f3, hL]; exact hin)
+  rw [← h4] at l4
+  rw [e4]
+  exact announce_locked l4 (by rw [hL]; exact hin)
+
+/-! ### Non-vacuity -/
+
+def goodAnn (p : String) : Ann :=
+  { peer := p, chunk := "c", man := "m", senderMatch := true, uriNonEmpty := true, powOk := true, version := 4,
+    decodable := true, idMatch := true, thresholdMet := true, unexpired := true, assignedOk := true,
+    hasEndpoint := true, hasAssigned := true }
+
+def badAnn (p : String) : Ann := { goodAnn p with senderMatch := false }
+
+def demoCfg : Cfg := sanitize { minInterval := 15, burstWindow := 120, burstLimit := 4, powDifficulty := 6 }
+
+/-- a lockout history: three rejections 60 s and 59 s apart, then good announces 179 s later (still locked
+    out) and 1 s after that (lockout over: accepted); a second peer is unaffected throughout -/
+def demoOps : List Op :=
+  [.ann (badAnn "p"), .adv 60000000000, .ann (badAnn "p"), .ann (goodAnn "q"), .adv 59000000000, .ann (badAnn "p"),
+   .adv 179000000000, .ann (goodAnn "p"), .adv 1000000000, .ann (goodAnn "p"), .ann (goodAnn "p")]
+
+example : ((run demoCfg (init 0, []) demoOps).2.map (·.out)) =
+    [.rejected .sender, .rejected .sender, .accepted, .rejected .sender, .rejected .locked, .accepted,
+     .rejected .throttle] := by decide
+
+example : demoCfg.minInterval ≤ demoCfg.burstWindow ∧ 0 < demoCfg.burstLimit := by decide
+
+example : acceptedTimes "p" (run demoCfg (init 0, []) demoOps).2 = [299000000000] ∧
+          (run demoCfg (init 0, []) demoOps).1.obs.cache = [("c", "m")] := by decide
 
 end EphVerif.C21
